@@ -42,6 +42,13 @@ func plain408(a Attempt, e Event, kind string) bool {
 	return kind == "retry" && !a.Timeout && e.Kind == "status" && e.Status == 408
 }
 
+func clip(s string) string {
+	if len(s) > 160 {
+		return s[:160] + "..."
+	}
+	return s
+}
+
 func evLabel(e Event) string {
 	switch {
 	case e.Kind == "status":
@@ -53,7 +60,22 @@ func evLabel(e Event) string {
 }
 
 func check(t *testing.T, c Case) (v harness.Verdict) {
-	out := run(t, c)
+	// The case runs in a subtest: when the race detector fires inside the bubble, synctest.Test ends the
+	// test it was given with FailNow; in a subtest that leaves this goroutine alive, so that the harness
+	// can attribute the report to the case (sig data-race) instead of the whole run dying without a verdict.
+	var out Outcome
+	ran := false
+	t.Run("case", func(st *testing.T) {
+		run(st, c, &out)
+		ran = true
+	})
+	if len(out.Calls) != len(c.Callers) {
+		v.Failf("case-aborted", "the case was aborted before it started")
+		return v
+	}
+	if !ran {
+		v.Class("aborted-by-test-framework") // e.g. a race report; the harness adds the data-race finding
+	}
 	judge(c, out, &v)
 	return v
 }
@@ -248,7 +270,7 @@ func judgeCaller(c Case, i int, out Outcome, single bool, v *harness.Verdict) {
 				bad = true
 			}
 			if bad {
-				v.Failf("wrong-response-returned", "%s: returned marker %d status %d body %q; the first parsable 200 was marker %d body %q", who, rec.Marker, rec.Status, rec.Body, last.Marker, last.Body)
+				v.Failf("wrong-response-returned", "%s: returned marker %d status %d, body at the end of the case %q; the first parsable 200 was marker %d body %q", who, rec.Marker, rec.Status, clip(rec.Body), last.Marker, last.Body)
 			}
 		case "converted":
 			v.Failf("redirected-post-success", "%s: attempt %d was redirected (%d) and arrived as %s; its answer (%s) was returned as success", who, n-1, lastEv.Redirect, last.Method, evLabel(lastEv))
@@ -262,7 +284,7 @@ func judgeCaller(c Case, i int, out Outcome, single bool, v *harness.Verdict) {
 		case lastKind == "stop" && rec.ErrKind == "rsperror":
 			v.Class("end:status-error")
 			if rec.Status != last.Status || rec.Body != last.Body {
-				v.Failf("rsperror-status-body", "%s: answered %d %q, RspError carries %d %q", who, last.Status, last.Body, rec.Status, rec.Body)
+				v.Failf("rsperror-status-body", "%s: answered %d %q; at the end of the case (after the other callers and one more submission) the RspError carries %d %q", who, last.Status, last.Body, rec.Status, clip(rec.Body))
 			}
 			if R != last.End {
 				v.Failf("late-return", "%s: status %d arrived at %v, call returned at %v", who, last.Status, last.End, R)
